@@ -49,12 +49,11 @@ LEVEL_TEXT = ("Theorems (Lean 4, Ccp.Props.C07, every config, option set and his
               "and its descendants out; deleteAny_gone / deleteAny_present -- delete on an object that left the list raises "
               "ConfigListItemDoesNotExist and changes nothing; malformed_rejected -- each malformed call raises the code's error class and "
               "changes nothing; listInsObj_spec -- a line-object payload is inserted even when blank under ignore_blank_lines (the string "
-              "form is refused), otherwise it is the string form; search_refuses_iff_stale_partial -- each of the FIFTEEN guarded entry "
-              "points never changes the state, raises NotImplementedError exactly when stale and answers otherwise; staleX_refuses -- "
-              "after a list insert and any extended operations other than commit every guarded search refuses, after commit it answers. "
-              "PARTIAL: the full statement (all sixteen entry points) is false for the code as it is -- guarded_all_but_one, "
-              "search_unguarded_answers: CiscoConfParse.re_match_iter_typed has no guard (known finding FC07a). "
-              "Tied to the code by differential runs of histories.")
+              "form is refused), otherwise it is the string form; search_refuses_iff_stale -- each of the SIXTEEN search entry "
+              "points never changes the state, raises NotImplementedError exactly when stale and answers otherwise (full statement: "
+              "CiscoConfParse.re_match_iter_typed, which had no guard -- finding FC07a --, is repaired in /repo and modelled like the "
+              "others); staleX_refuses -- after a list insert and any extended operations other than commit every search entry point "
+              "refuses, after commit it answers. Tied to the code by differential runs of histories.")
 LEVEL_NOTE = ("Trusted: Lean kernel, standard axioms, harness. The edit machine abstracts the integer checkpoints to a boolean; "
               "Ccp.Props.C07Ck models the two integers themselves (sum of hash((linenum, text)) over the list, hash as a parameter) and proves "
               "that after k >= 1 inserts since a commit current - commit = the sum of the hashes of the fresh objects, so the seatbelt trips iff "
@@ -62,9 +61,10 @@ LEVEL_NOTE = ("Trusted: Lean kernel, standard axioms, harness. The edit machine 
               "(insert_sets_stale_of_noCancel, with a decided witness that two cancelling hashes go unnoticed), that pop / delete / the text "
               "setter recompute nothing and commit closes the seatbelt; the 'ckpt' stream compares the implementation's two integers after every "
               "operation with that model on Python-computed hash rows. All C07 theorems of DESIGN.md are proved "
-              "at full strength; the one partial theorem is search_refuses_iff_stale_partial of the extended alphabet (the code lacks the guard "
-              "in CiscoConfParse.re_match_iter_typed: FC07a, notes/proposed-fixes/C07-1.patch + C07-1.model-followup.patch). The model has ONE "
-              "probe behaviour for all guarded searches (each starts with the same guard); which entry points carry the guard, and that the "
+              "at full strength, none is partial (search_refuses_iff_stale_partial became search_refuses_iff_stale when FC07a was repaired by "
+              "'fix: CiscoConfParse.re_match_iter_typed() refuses to search an uncommitted config'; the oracle demands a refusal from every one "
+              "of the sixteen entry points on a stale state, so dropping any guard is a violation). The model has ONE "
+              "probe behaviour for all searches (each starts with the same guard); that every entry point carries the guard, and that the "
               "find_* guards of find_parent_objects / find_child_objects / find_parent_objects_wo_child are shadowed by the guards of the "
               "searches they call, is measured by the probe stream. What the searches ANSWER is C04's subject, not compared here (only: "
               "answers on a committed state consist of objects of that commit). Anchored statements never executed by the quick run: 335 of "
@@ -207,12 +207,6 @@ def oracle(case, ans):
                 if not refuse and status != "ok":
                     fails.append(f"search refused at step {idx - 1} on a committed state: {status}")
     return fails[:3]
-
-
-def known_id(case, failure):
-    if "although an insert is uncommitted" in failure and "'crmit'" in failure:
-        return "FC07a"
-    return None
 
 
 def nontrivial(case):
